@@ -1,6 +1,6 @@
 (* Proofs/BindMain.v — the C19 statements assembled from BindView / BindAsm / BindPure / BindRefute. *)
 Require Import IP.Base.Bytes IP.DM.Value IP.Bind.GoVal IP.Bind.Bind IP.Bind.Spec.
-Require Import IP.Proofs.BindFacts IP.Proofs.BindView IP.Proofs.BindAsm IP.Proofs.BindPure IP.Proofs.BindRefute.
+Require Import IP.Proofs.BindFacts IP.Proofs.BindView IP.Proofs.BindAsm IP.Proofs.BindFits IP.Proofs.BindPure IP.Proofs.BindRefute.
 
 Lemma unwrap_thm : forall q lv n32 t s d,
   bindable t s = true -> fits q lv n32 t s d = true ->
@@ -41,3 +41,27 @@ Qed.
 
 Example repaired_is_pure : pure_prop repaired.
 Proof. apply pure_repaired_thm. reflexivity. Qed.
+
+(* Marshal / Unmarshal without side condition: what a well-formed value denotes always fits *)
+Lemma marshal_full_thm :
+  forall q n32 (enc : dm -> bytes) (dec : bytes -> bres dm), (forall d, dec (enc d) = Ok d) ->
+  forall t s g, is_any t = false -> bindable t s = true -> gv_ok q n32 t s g = true ->
+  exists b g', marshal q enc t s g = Ok b /\ unmarshal q n32 dec t s b = Ok g' /\
+               gv_ok q n32 t s g' = true /\ denote LRepr t g' = denote LRepr t g /\
+               view q LRepr t s g' = view q LRepr t s g.
+Proof.
+  intros q n32 enc dec Hrt t s g Hany Hb Hg.
+  apply (marshal_roundtrip q n32 enc dec Hrt t s g Hany Hb Hg).
+  apply denote_fits; assumption.
+Qed.
+
+(* the same data is also what fits at type level: every well-formed value can be rebuilt from its view *)
+Lemma rebuild_thm : forall q lv n32 t s g,
+  bindable t s = true -> gv_ok q n32 t s g = true ->
+  exists g', asm q lv n32 t s (zero_of s) false (denote lv t g) = Ok g'
+             /\ gv_ok q n32 t s g' = true /\ denote lv t g' = denote lv t g.
+Proof.
+  intros q lv n32 t s g Hb Hg.
+  destruct (unwrap_thm q lv n32 t s (denote lv t g) Hb (denote_fits q n32 lv t s g Hb Hg)) as [g' [Ha [Hok [Hden _]]]].
+  exists g'. auto.
+Qed.
